@@ -14,6 +14,7 @@ from . import tlc
 
 ROOT = os.path.dirname(os.path.dirname(os.path.dirname(os.path.abspath(__file__))))
 KNOWN_FILE = os.path.join(ROOT, "known_findings.json")
+OUT = os.environ.get("VF_OUT") or ROOT      # tools/try_seed_copy.sh redirects evidence and replays of runs against patched copies
 
 
 class Machinery(RuntimeError):
@@ -171,7 +172,7 @@ class Ctx:
             return self._sigs[sig]["replay"]
         body = {"property": self.pid, "tags": tags, "what": what, "case": replay}
         h = hashlib.sha1(json.dumps(body, sort_keys=True, default=str).encode()).hexdigest()[:12]
-        d = os.path.join(ROOT, "replays", self.pid)
+        d = os.path.join(OUT, "replays", self.pid)
         os.makedirs(d, exist_ok=True)
         path = os.path.join(d, h + ".json")
         with open(path, "w") as f:
@@ -232,8 +233,8 @@ class Ctx:
             "wall_s": round(wall, 2),
             "violations": nviol,
         }
-        os.makedirs(os.path.join(ROOT, "evidence"), exist_ok=True)
-        with open(os.path.join(ROOT, "evidence", self.pid + ".json"), "w") as f:
+        os.makedirs(os.path.join(OUT, "evidence"), exist_ok=True)
+        with open(os.path.join(OUT, "evidence", self.pid + ".json"), "w") as f:
             json.dump(ev, f, indent=1, default=str)
         shutil.rmtree(self.scratch, ignore_errors=True)
         print(f"[vf] {self.pid} tier={self.tier} seed={self.seed} states={self.states} traces={self.traces_validated} "
